@@ -267,6 +267,18 @@ def check(run):
                 run.instance(r3, "call path of %s" % ent.dname[:120], ent.where(), ok=not bad, detail={"functions": len(fs)})
                 for f, i, why in bad:
                     run.violation(r3, "%s|%s" % (site_key(f), why), "%s in %s on the path from the method call to the error handler: a throwing handler's exception would not reach the caller" % (why, f.dname[:160]), i.where())
+    if run.tier == "thorough":
+        n = 0
+        rus = callpath.repo_units(run)
+        for ru in rus:
+            rmod = irq.Module(ru["path"])
+            for f, call, kind in handler_sites(rmod):
+                ok, bad = path.after_call_reaches(f, call, lambda i: i.op in ("call", "invoke") and i.get("callee") == "abort")
+                n += 1
+                run.instance(r2, "%s: %s call in %s" % (ru["file"], kind, f.dname[:120]), call.where(), ok=ok)
+                if not ok:
+                    run.violation(r2, "%s|%s" % (site_key(f), kind), "a path from the %s call in %s (unit %s) returns without calling abort()" % (kind, f.dname[:160], ru["file"]), call.where())
+        run.units.append({"unit": "repository units (compile database)", "count": len(rus), "handler_call_sites": n})
     from .. import crules
     r4, r5 = "C02-order", "C02-cells"
     run.rule(r4, "the 'more specific' predicate that decides between a definition and the ambiguity cell is the documented table", floor=3)
